@@ -213,7 +213,7 @@ def r17_1(ctx, rep, roles, sel):
     callers = cg.callers_of(sel["id"])
     rep.floor("selection-call-sites", len(callers), 1)
     for cs in callers:
-        eng = sym.Engine(fx, inline_only=set())
+        eng = sym.Engine(fx, inline_only=set(getattr(fx, "new_helpers", ())))
         rows = eng.table(cs.caller)
         done = False
         for row in rows:
@@ -246,7 +246,7 @@ def closure_excludes_self(fx, eng, row, clo, address):
     """the filter closure returns `item != own id` (or own gossip address)"""
     st = sym.St()
     st.store = dict(row.store)
-    e2 = sym.Engine(fx, inline_only=set())
+    e2 = sym.Engine(fx, inline_only=set(getattr(fx, "new_helpers", ())))
     outs = list(sym.call_closure(e2, st, clo, [("ptr", ("S", "item"), ())], 0, ("c", 0)))
     for s2, ret in outs:
         if ret[0] == "op" and ret[1] == "Ne":
